@@ -116,8 +116,8 @@ Proof.
   - change (c :: r ++ [46; 48]) with ((c :: r) ++ [46; 48]). apply H.
 Qed.
 
-(* scraped fact (trip-wire): the float literal printer emits the infinity builtin exactly for infinite constants; every
-   finite constant is printed as digits (and then rounded by the C compiler) *)
+(* scraped fact (trip-wire): the infinity branch of the float literal printer is guarded by bn.isinfinite(num) alone (a finite
+   float32 constant >= FLT_MAX + half ulp is made infinite by the pre-rounding block before it, on purpose) *)
 Lemma emit_inf_guard : EMIT_INF_GUARD_IS_ISINFINITE = true.
 Proof. reflexivity. Qed.
 
@@ -125,3 +125,44 @@ Proof. reflexivity. Qed.
    FLT_MAX + half ulp included - before its 9 digit text is printed *)
 Lemma emit_f32_rounded_first : EMIT_F32_ROUNDED_BEFORE_PRINTING = true.
 Proof. reflexivity. Qed.
+
+(* ---- the overflow decision of the pre-rounding block, as a policy ----
+   Magnitudes at the top of the float32 range in units of 1/16 ulp of the last binade (ulp = 2^104): FLT_MAX is
+   F32_TOP = 16 * (2^24 - 1) units, FLT_MAX + half ulp is F32_TOP + 8.  [f32_correct]: round to nearest, ties to even,
+   infinity when the rounded significand reaches 2^24.  [f32_block half]: what the block does with the threshold
+   FLT_MAX + half ulp ([half] = true, the scraped policy) or with the threshold FLT_MAX (the seeded change C14-D). *)
+Inductive f32top := TopInf | TopVal (k : Z).          (* infinity, or the significand k (value k * ulp) *)
+Definition F32_TOP : Z := 16 * (2 ^ 24 - 1).
+Definition f32_correct (x : Z) : f32top :=
+  let k := x / 16 in let r := x mod 16 in
+  let k' := if r <? 8 then k else if 8 <? r then k + 1 else if Z.even k then k else k + 1 in
+  if 2 ^ 24 <=? k' then TopInf else TopVal k'.
+Definition f32_block (half : bool) (x : Z) : f32top :=
+  if (if half then F32_TOP + 8 <=? x else F32_TOP <? x) then TopInf
+  else if F32_TOP <? x then TopVal (2 ^ 24 - 1)
+  else f32_correct x.                                   (* below FLT_MAX: the C conversion, correct by assumption *)
+
+Lemma f32_block_iff_policy half :
+  (forall x, F32_TOP - 16 <= x -> f32_block half x = f32_correct x) <-> half = true.
+Proof.
+  split.
+  - intros H. destruct half; [reflexivity|]. specialize (H (F32_TOP + 1) ltac:(unfold F32_TOP; lia)). vm_compute in H. discriminate H.
+  - intros -> x Hx. unfold f32_block, f32_correct.
+    destruct (Z.leb_spec (F32_TOP + 8) x) as [Hh|Hh].
+    + unfold F32_TOP in *. assert (2 ^ 24 - 1 <= x / 16) by (apply Z.div_le_lower_bound; lia).
+      pose proof (Z.div_mod x 16 ltac:(lia)) as D. pose proof (Z.mod_pos_bound x 16 ltac:(lia)) as B.
+      destruct (Z.eq_dec (x / 16) (2 ^ 24 - 1)) as [E|N].
+      * rewrite E. assert (8 <= x mod 16) by lia. destruct (Z.ltb_spec (x mod 16) 8); [lia|].
+        destruct (Z.ltb_spec 8 (x mod 16)); [reflexivity|]. change (Z.even (2 ^ 24 - 1)) with false. reflexivity.
+      * assert (2 ^ 24 <= x / 16) by lia.
+        destruct (x mod 16 <? 8); [|destruct (8 <? x mod 16); [|destruct (Z.even (x / 16))]];
+          match goal with |- TopInf = (if ?c then _ else _) => destruct (Z.leb_spec (2 ^ 24) ltac:(match c with _ <=? ?e => exact e end)) end; try reflexivity; lia.
+    + destruct (Z.ltb_spec F32_TOP x) as [Hm|Hm]; [|reflexivity].
+      unfold F32_TOP in *. pose proof (Z.div_mod x 16 ltac:(lia)) as D. pose proof (Z.mod_pos_bound x 16 ltac:(lia)) as B.
+      assert (E : x / 16 = 2 ^ 24 - 1) by lia.
+      rewrite E. assert (x mod 16 < 8) by lia. destruct (Z.ltb_spec (x mod 16) 8); [reflexivity|lia].
+Qed.
+
+(* with the scraped policy *)
+Lemma f32_block_correct : forall x, F32_TOP - 16 <= x -> f32_block EMIT_F32_ROUNDED_BEFORE_PRINTING x = f32_correct x.
+Proof. apply (proj2 (f32_block_iff_policy EMIT_F32_ROUNDED_BEFORE_PRINTING)). reflexivity. Qed.
